@@ -8,6 +8,16 @@ TB = ("Trusted: go/ssa (source->SSA), the govc executor/contract evaluator, the 
       "externals and physical bounds are listed in the evidence file on every run.")
 
 CLAIMS = {
+ "C07": dict(
+   text="Deductive proof for a byte string of symbolic length and content (no bound below 2^40): openflow13.Parse and every decoder in its call closure (106 functions: every UnmarshalBinary of openflow13 and common, DecodeAction, DecodeNxAction, DecodeInstr, DecodeMatchField with its ~110 field cases, decodeVendorData; the packet decoders reached through packet-in are the C08 functions) are verified against total contracts: every index, slice, nil dereference, call on a nil interface, type assertion, make and explicit panic is proved unreachable; every loop has an inductive invariant and a strictly decreasing variant bounded by the input length or a wire length already checked against it (element decoders guarantee 'decoded size >= 1 and <= remaining input', which the list loops of their callers use for progress and bounds); every make() allocates at most max(4096, len(input)) elements. Callers see callees only through their contracts; unknown type codes are proved to yield an error, not a nil dispatch.",
+   note="Time is decided as termination with input-bounded variants, memory as a per-allocation bound. The recursion Parse -> VendorHeader -> BundleAdd -> Parse is cut by contracts (each nested Parse receives a strictly shorter slice, data[8:]); no separate recursion-variant obligation is generated. Receivers are as allocated by the real dispatchers (requires: list fields of the receiver empty), checked at every call site inside the closure. log/logrus calls are assumed pure. " + TB,
+   technique="contract-based deductive verification: safety + termination + allocation obligations from symbolic execution of go/ssa over a symbolic input array, QF_AUFBV, z3/cvc5",
+   design="DESIGN.md section 4 C07"),
+ "C12": dict(
+   text="Deductive proof on the same closure as C07 plus the packet decoders of C08 (127 functions): in the executor every slice carries its backing object; for each decoder the obligation own/noalias states that no slice, array view or interface payload reachable from the receiver or the result (at every return and at every loop back edge) has the input buffer as backing object; callee contracts export the same guarantee, bytes.Buffer.Write and net.IPv4 are assumed to copy. A decoder that keeps a sub-slice of its input anywhere in the decoded value fails this obligation by construction.",
+   note="The frame side (decoders modify only their receiver and what it owns) is proved under the same check. Replay: parse, overwrite the input, compare the JSON rendering of the value. " + TB,
+   technique="contract-based deductive verification: ownership (backing-object) obligations from symbolic execution of go/ssa, decided by the executor's heap model",
+   design="DESIGN.md section 4 C12"),
  "C01": dict(
    text="Deductive proof of message framing as an invariant over all builder histories: (1) every constructor of a controller-originated message (hello, echo request/reply, features/get-config request, set-config, flow-mod, group-mod, packet-out, port-mod, Nicira vendor messages, bundle control/add) is proved to establish wf(msg), which fixes Header.Version == 4 and Header.Type == the ofp_type code of the kind (automatic 'ensures wf(result)' contract on every New* function); (2) every adder (AddInstruction, AddBucket, AddAction, SetData, Match.AddField, Bucket/InstrActions/conntrack AddAction) is proved to preserve wf; (3) every top-level MarshalBinary is proved, for ALL command variants (Command is symbolic; delete variants are paths), all symbolic numbers of instructions/buckets/actions/fields and children of unknown dynamic type, to return bytes with data[0] == 4, data[1] == type code, be16(data,2) == len(data) == int(Len()) and to stamp Header.Length with that value; bundle-add and vendor wrappers embed ANY message through the interface contract, so nesting depth is unbounded. Header-only messages are closed by lemma functions executed from constructor to bytes.",
    note="Precondition: the value fits in 65535 bytes (as in the statement). Multipart requests and barrier requests have no constructor in the library: their wf (version/type set from the header generator) is assumed, the encoder part is proved. InstrActions.AddAction is under contract for the append path only (the prepend path appends a symbolic-length list, outside the executor's subset). " + TB,
